@@ -28,6 +28,9 @@ def KeyOK (s : State) : Prop :=
 /-- no stored record is fully accepted (such a record is paid and deleted instead) -/
 def NoneFullyAccepted (s : State) : Prop := ∀ e ∈ s.recs, e.2.isFullyAccepted = false
 
+/-- no record holds a negative amount -/
+def RecsNonneg (s : State) : Prop := ∀ e ∈ s.recs, ∀ d, 0 ≤ Coins.amountOf e.2.coins d
+
 /-- store keys are unique -/
 def KeysNodup (s : State) : Prop := (s.recs.map (·.1)).Nodup
 
